@@ -83,6 +83,21 @@ impl CountMinSketch {
     }
 }
 
+#[cfg(feature = "verif-hooks")]
+impl CountMinSketch {
+    pub(crate) fn verif_rows(&self) -> Vec<Vec<u8>> {
+        self.rows.iter().map(|r| r.verif_bytes()).collect()
+    }
+
+    pub(crate) fn verif_seeds(&self) -> [u64; DEPTH] {
+        self.seeds
+    }
+
+    pub(crate) fn verif_reseed(&mut self, seeds: [u64; DEPTH]) {
+        self.seeds = seeds;
+    }
+}
+
 #[cfg(test)]
 mod test {
     use super::*;
